@@ -82,6 +82,16 @@ class Exec:
             e["obj"].update_pose(T)
             e["world"] = world_points(T, e["local"])
             return {}
+        if k == "nudge":
+            # the caller moves the body by editing its pose array in place (as examples/visualizations/
+            # vis_pressure_field_collision.py does): a pure translation of the body in the world
+            e = self._slot(op["s"])
+            d = np.array(op["d"], dtype=float)
+            e["obj"].body2origin_[:3, 3] += d
+            e["world"] = e["world"] + d
+            if not e["reexpressed"]:
+                pass
+            return {}
         if k == "setE":
             e = self._slot(op["s"])
             e["obj"].youngs_modulus = float(op["E"])
